@@ -181,7 +181,9 @@ class ImportTools:
         return source
 
     def _is_transformable_to_normal(self, import_info):
-        return isinstance(import_info, FromImport)
+        return isinstance(import_info, FromImport) and not actions._is_future(
+            import_info
+        )
 
     def organize_imports(
         self,
